@@ -638,8 +638,11 @@ func (l *Line) ByteArray(name string, value []byte) *Line {
 	truncated := false
 	rem := cap(l.buffer) - l.index - 1 - len(name) - 2
 	if rem <= len(value)*3 { // each byte occupies 3 characters
-		copy(l.buffer[cap(l.buffer)-len("TRUNCATED "):], []byte("TRUNCATED "))
 		rem = rem - len("TRUNCATED ")
+		if rem < 0 { // no room left for the name and the truncation marker
+			return l
+		}
+		copy(l.buffer[cap(l.buffer)-len("TRUNCATED "):], []byte("TRUNCATED "))
 		value = value[:rem/3]
 		truncated = true
 	}
